@@ -103,6 +103,15 @@ def structs_B(tier, seed):
     return out
 
 
+def dense_size(st):
+    """number of entries of the primary operand of a structure"""
+    n = [sum(l['sizes']) for l in st['legs']]
+    out = 1
+    for k in range(st['rank']):
+        out *= n[k % len(n)]
+    return out
+
+
 def _variants(spec, tier):
     return spec.quick if tier == 'quick' else spec.variants
 
